@@ -15,6 +15,7 @@ package main
 // panic; a rejected Resume leaves the marshalled session unchanged.
 
 import (
+	"bytes"
 	"encoding/json"
 	"fmt"
 	"os"
@@ -671,6 +672,11 @@ func runDefCase(prop string, c *DefCase, res *hx.Result) {
 				return
 			}
 			if rerr != nil {
+				if bytes.Equal(op.NewAssets, c.Assets) {
+					// nothing changed: a session the engine itself wrote must read back against the same assets
+					fail("stored-session-not-readable", fmt.Sprintf("the session marshalled after call %d does not read back against unchanged assets: %v", i, rerr))
+					return
+				}
 				res.Dist("definition:read-session-error")
 				break
 			}
@@ -740,6 +746,16 @@ func defStream(prop string, r *hx.Rand, n int, res *hx.Result) {
 	if prop == "C05" {
 		corpus = append(corpus, feedbackCorpus()...)
 		corpus = append(corpus, noContactCases()...)
+	}
+	if prop == "C10" {
+		// sessions without a contact, stored and read back before every resume ("sessions restored"): they must read back,
+		// and a rejected resume (the second op is one the msg wait rejects) must leave them untouched
+		for _, c := range noContactCases() {
+			c.Scenario = "restored-" + c.Scenario
+			c.Ops = []DefOp{{Kind: "dial", NewAssets: c.Assets, Change: "stored and read back"}, {Kind: "msg", Text: "a", NewAssets: c.Assets, Change: "stored and read back"},
+				{Kind: "msg", Text: "b", NewAssets: c.Assets, Change: "stored and read back"}}
+			corpus = append(corpus, c)
+		}
 	}
 	for i, c := range corpus {
 		if prop == "C10" && strings.HasPrefix(c.Scenario, "odd-list") {
